@@ -193,15 +193,8 @@ pub fn check_case(case: &Case, ctx: &mut Ctx) {
     for r in &rs {
         ctx.out(&r.text);
     }
-    // value and reference renderings identical; write_* == to_*
-    for (i, j) in [(0usize, 1usize), (2, 3), (4, 5), (6, 7), (8, 9)] {
-        ctx.check(rs[i].text == rs[j].text, "render/value-vs-ref-or-write-differs", case, || format!("`{}` gives {:?} but `{}` gives {:?}", rs[i].name, rs[i].text, rs[j].name, rs[j].text));
-    }
-    if rs.len() == 12 {
-        ctx.check(rs[10].text == rs[11].text, "render/value-vs-ref-or-write-differs", case, || format!("to_plain_string {:?} != write_plain_string {:?}", rs[10].text, rs[11].text));
-    }
-    // {:E} is {:e} with a capital E
-    ctx.check(rs[4].text == rs[2].text.replace('e', "E"), "render/upper-exp-not-lower-exp", case, || format!("{{:e}}={:?} {{:E}}={:?}", rs[2].text, rs[4].text));
+    // (every rendering is judged on its own below: the statement does not require value / reference / write_*
+    // variants to be textually identical, nor {:E} to be {:e} with a capital letter)
 
     for r in &rs {
         let parsed = ctx.guard(|| BigDecimal::from_str(&r.text));
@@ -234,26 +227,28 @@ pub fn check_case(case: &Case, ctx: &mut Ctx) {
         }
     }
 
-    // Display: bounded length and notation switch exactly at the documented thresholds
-    let disp = &rs[0].text;
+    // Display (on the value and on the reference): bounded length and notation switch exactly at the documented thresholds
     let (lower, upper) = thresholds();
-    ctx.check(disp.len() as i128 <= digits as i128 + 33 + lower.max(upper), "display/too-long", case, || format!("Display of {} has {} chars for {} digits", d.tok(), disp.len(), digits));
-    let has_exp = disp.contains('e') || disp.contains('E');
-    // leading zeros between the point and the first digit; trailing zeros of an integer with negative scale
     let leading_zeros: i128 = if d.s > 0 { (d.s as i128 - digits as i128).max(0) } else { 0 };
     let trailing_zeros: i128 = if d.s < 0 { -(d.s as i128) } else { 0 };
     let want_exp = leading_zeros > lower || trailing_zeros > upper;
-    ctx.check(has_exp == want_exp, "display/notation-threshold", case, || format!(
-        "Display of {} is {:?}: exponent form = {}, but it has {} leading / {} trailing zeros (thresholds {} / {})", d.tok(), disp, has_exp, leading_zeros, trailing_zeros, lower, upper));
-    if !has_exp {
-        // positional output: sign, digits, at most one point, nothing else
-        let body = disp.strip_prefix('-').unwrap_or(disp);
-        ctx.check(body.chars().all(|c| c.is_ascii_digit() || c == '.') && body.matches('.').count() <= 1 && (d.n.is_negative() == disp.starts_with('-')),
-            "display/malformed", case, || format!("Display of {} is {:?}", d.tok(), disp));
+    for idx in [0usize, 1] {
+        let disp = &rs[idx].text;
+        let which = rs[idx].name;
+        ctx.check(disp.len() as i128 <= digits as i128 + 33 + lower.max(upper), "display/too-long", case, || format!("`{}` of {} has {} chars for {} digits", which, d.tok(), disp.len(), digits));
+        let has_exp = disp.contains('e') || disp.contains('E');
+        ctx.check(has_exp == want_exp, "display/notation-threshold", case, || format!(
+            "`{}` of {} is {:?}: exponent form = {}, but it has {} leading / {} trailing zeros (thresholds {} / {})", which, d.tok(), disp, has_exp, leading_zeros, trailing_zeros, lower, upper));
+        if !has_exp {
+            // positional output: sign, digits, at most one point, nothing else
+            let body = disp.strip_prefix('-').unwrap_or(disp);
+            ctx.check(body.chars().all(|c| c.is_ascii_digit() || c == '.') && body.matches('.').count() <= 1 && (d.n.is_negative() == disp.starts_with('-')),
+                "display/malformed", case, || format!("`{}` of {} is {:?}", which, d.tok(), disp));
+        }
     }
     // engineering: exponent multiple of three, 1..3 integer digits
     if !zero {
-        let eng = &rs[8].text;
+        for eng in [&rs[8].text, &rs[9].text] {
         if let Some((mant, exp)) = eng.split_once('e') {
             let e: i128 = exp.parse().unwrap_or(1);
             let int_part = mant.trim_start_matches('-').split('.').next().unwrap_or("");
@@ -261,12 +256,14 @@ pub fn check_case(case: &Case, ctx: &mut Ctx) {
         } else {
             ctx.fail("eng/shape", case, format!("engineering notation of {} is {:?} (no exponent)", d.tok(), eng));
         }
-        let sci = &rs[6].text;
+        }
+        for sci in [&rs[6].text, &rs[7].text] {
         if let Some((mant, _)) = sci.split_once('e') {
             let int_part = mant.trim_start_matches('-').split('.').next().unwrap_or("");
             ctx.check(int_part.len() == 1 && int_part != "0", "sci/shape", case, || format!("scientific notation of {} is {:?}", d.tok(), sci));
         } else {
             ctx.fail("sci/shape", case, format!("scientific notation of {} is {:?} (no exponent)", d.tok(), sci));
+        }
         }
     }
     ctx.end_case(case.hash(), !zero);
